@@ -55,12 +55,12 @@ const (
 
 // Event is one watch event.  Old/New are immutable snapshots owned by the store.
 type Event struct {
-	Type EventType
-	Key  ObjKey
-	GVK  schema.GroupVersionKind
-	Old  client.Object
-	New  client.Object
-	Seq  uint64
+	Type   EventType
+	Key    ObjKey
+	GVK    schema.GroupVersionKind
+	Old    client.Object
+	New    client.Object
+	Seq    uint64
 	Commut bool
 }
 
